@@ -12,6 +12,7 @@ import (
 
 	sdk "github.com/cosmos/cosmos-sdk/types"
 	"github.com/ethereum/go-ethereum/common"
+	"github.com/ethereum/go-ethereum/crypto"
 
 	"github.com/functionx/fx-core/v8/testutil/helpers"
 	fxtypes "github.com/functionx/fx-core/v8/types"
@@ -48,10 +49,15 @@ type program struct {
 	inner  map[int]*inner         // pre node id -> EVM call made from inside its native action
 	used   map[int]bool           // hook tokens in use
 	next   int
-	direct bool // the transaction calls the precompile itself (root = one pre node, sender = env.direct)
+	direct bool         // the transaction calls the precompile itself (root = one pre node, sender = env.direct)
 	create map[int]bool // call nodes that are CREATE instructions: Body = init code, To = address of the new contract
 	body   func(depth int, ctx common.Address, static bool) []*evmx.Node
 	depth  int // depth of the frame being generated (for genPre)
+	// round 4: CREATE nodes in RANDOM programs
+	created  map[common.Address]bool // accounts that come into being by a CREATE of this program (their constructors run in this context)
+	creators map[common.Address]bool // contexts that already issued a CREATE (the child address is nonce-derived: one per creator)
+	noHook   bool                    // genPre must not open a hook-token body (set while a constructor's precompile call is being sampled)
+	inHook   int                     // > 0 while the body of a hook contract is generated (installed by the shared assembler: no CREATE there)
 }
 
 // byte code of a hook token: CALL(gas, hook, 0, 0, 0, 0, 0); success ? return uint256(1) : REVERT
@@ -82,8 +88,18 @@ func (e *env) genProgram(rng *rand.Rand) *program {
 	return p
 }
 
+// isPoolCtx: the context is one of the generated frame contracts (known nonce, funded)
+func (e *env) isPoolCtx(a common.Address) bool {
+	_, ok := e.poolIdx[a]
+	return ok && a != e.direct.Address()
+}
+
 // attachGen gives p its body generator
 func (e *env) attachGen(rng *rand.Rand, p *program) {
+	if p.create == nil {
+		p.create = map[int]bool{}
+	}
+	p.created, p.creators = map[common.Address]bool{}, map[common.Address]bool{}
 	var gen func(depth int, ctx common.Address, static bool) []*evmx.Node
 	gen = func(depth int, ctx common.Address, static bool) []*evmx.Node {
 		n := 2 + rng.Intn(4)
@@ -102,10 +118,55 @@ func (e *env) attachGen(rng *rand.Rand, p *program) {
 				if static && rng.Intn(4) != 0 {
 					nd = nil // mostly avoid SSTORE in static frames (it fails the frame)
 				}
+			case r < 65 && p.created[ctx]:
+				// a precompile call made by (or in the context of) an account under construction: only the variants a fresh
+				// account can make meaningfully — it holds its endowment and nothing else (no delegation, no grants, no tokens)
+				p.depth = depth
+				p.noHook = true
+				found := false
+				for try := 0; try < 80 && !found; try++ {
+					cand := &evmx.Node{ID: id}
+					mt := e.genPre(rng, p, cand, ctx, static)
+					for _, v := range createVariants {
+						if mt.variant == v {
+							found = true
+						}
+					}
+					if found {
+						*nd = *cand
+						p.meta[id] = mt
+						nd.Op = "pre"
+						e.cnt("random-constructor-precompile-call:" + mt.variant)
+					}
+				}
+				p.noHook = false
+				if !found {
+					nd.Op, nd.Slot, nd.Val = "sstore", uint64(id), 1
+					if static {
+						nd = nil
+					}
+				}
 			case r < 65:
 				p.depth = depth
 				p.meta[id] = e.genPre(rng, p, nd, ctx, static)
 				nd.Op = "pre"
+			case r >= 78 && r < 85 && depth < 3 && !static && p.inHook == 0 && !p.creators[ctx] && !p.created[ctx] && e.isPoolCtx(ctx):
+				// CREATE (round 4, was directed programs only): the constructor is a frame like any other — snapshot, endowment
+				// transfer, init code, revert on failure — whose precompile calls are made by the account being created
+				child := crypto.CreateAddress(ctx, e.s.App.EvmKeeper.GetNonce(e.s.Ctx, ctx))
+				nd.Op, nd.Kind, nd.To = "call", evmx.KCall, child
+				nd.Swallow = rng.Intn(2) == 0
+				// endowment: 100 FX (the constructor's delegations, origin-token transfers and value calls are paid from it), or
+				// more than the creator holds (the constructor never starts).  No zero endowment: whether a constructor call
+				// succeeds would then depend on funds the generator does not track
+				nd.Value = new(big.Int).Mul(big.NewInt(100), big.NewInt(1e18))
+				if rng.Intn(6) == 0 {
+					nd.Value = new(big.Int).Lsh(big.NewInt(1), 100)
+				}
+				p.create[id] = true
+				p.creators[ctx], p.created[child] = true, true
+				nd.Body = gen(depth+1, child, false)
+				e.cnt("random-constructor")
 			case r < 85 && depth < 3 && len(p.addrs) < nPool:
 				nd.Op = "call"
 				nd.Kind = evmx.Kind([]int{0, 0, 0, 0, 0, 0, 0, 1, 2, 3}[rng.Intn(10)])
@@ -119,6 +180,17 @@ func (e *env) attachGen(rng *rand.Rand, p *program) {
 					nd.Value = big.NewInt(int64(1 + rng.Intn(1000)))
 					if rng.Intn(6) == 0 {
 						nd.Value = new(big.Int).Lsh(big.NewInt(1), 100) // more than the caller holds: the call never starts
+					}
+				}
+				// CALLCODE with a value (round 4): allowed in a static context too (opCallCode has no write-protection test);
+				// the balance of the EXECUTING account is consulted, nothing moves
+				if nd.Kind == evmx.KCallCode && (static || rng.Intn(2) == 0) {
+					nd.Value = big.NewInt(int64(1 + rng.Intn(1000)))
+					if rng.Intn(4) == 0 {
+						nd.Value = new(big.Int).Lsh(big.NewInt(1), 100)
+					}
+					if static {
+						e.cnt("value-callcode-in-static-context")
 					}
 				}
 				cctx := nd.To
@@ -457,14 +529,16 @@ func (e *env) genPre(rng *rand.Rand, p *program, nd *evmx.Node, ctx common.Addre
 				break
 			}
 		}
-		if hookK >= 0 && rng.Intn(4) == 0 {
+		if hookK >= 0 && !p.noHook && rng.Intn(4) == 0 {
 			// a native ERC-20 whose transferFrom runs a generated program (storage writes, value moves, precompile calls —
 			// native actions INSIDE this call's native action) before it answers
 			token = e.hookTok[hookK]
 			variant = m + "/hook-token"
 			p.used[hookK] = true
 			depth := p.depth
+			p.inHook++
 			body := p.body(depth+1, e.hookAddr[hookK], static)
+			p.inHook--
 			p.depth = depth
 			p.inner[nd.ID] = p.newInner(hookK, token, e.hookAddr[hookK], body)
 		} else if len(tokens) > 0 && rng.Intn(2) == 0 {
